@@ -12,6 +12,8 @@ HARNESSES = [
     dict(name="sizes.table", src="C13/sizes.c", unwind=16, unwindset={"strcmp.0": 7, "memcmp.0": 7}, timeout=300, mem_gb=4,
          extra_srcs=["lib/crc16.c", "lib/null_decoder.c", "lib/lz5_decoder.c", "lib/lzs_decoder.c", "lib/lh1_decoder.c", "lib/lh5_decoder.c", "lib/lh6_decoder.c", "lib/lh7_decoder.c", "lib/lhx_decoder.c", "lib/lk7_decoder.c", "lib/pm1_decoder.c", "lib/pm2_decoder.c"],
          units=["lib/lha_decoder.c:decoders[],lha_decoder_for_name", "the 12 decoder type objects"], bounds="concrete table; one symbolic 5-byte name"),
+    dict(name="macbin.term", src="C13/macbin_term.c", defines=["PMIN=32"], unwind=8, unwindset={"read_macbinary_header.0": 6, "block_is_zero.0": 66, "verif_memcmp.0": 66, "strlen.0": 4}, unwind_is_property=True,
+         units=["lib/macbinary.c:read_macbinary_header"], timeout=300, mem_gb=4, bounds="inner decoder delivering arbitrary pieces of >= 32 bytes (or the rest), ending anywhere", stubs=["inner decoder: arbitrary piece sizes"]),
     SKIP, dict(name="skip.seek", src="C16/skip.c", entry="harness_seek", unwind=6, units=["lib/lha_input_stream.c:file_source_skip"], timeout=120, mem_gb=4,
          bounds="any position/length, any skip distance 0..2^32-1 on a seekable stream", stubs=["FILE: (position, length, seekable, eof) model"]),
     it(len0=0, ret=24, timeout=120), it(len0=12, ret=1, timeout=120), it(len0=3, ret=0, timeout=120), l1ext(13), walk(16), extend(3), pos(3), rsm(2, 4, timeout=600),
